@@ -182,6 +182,20 @@ CHECKS = {
             fuzz("FuzzC18Parse", 60),
         ],
     ),
+    "C08": dict(
+        level="exploration",
+        rule="rapid on Layer B (real client.go over gocbcore on the simulated node + real stream/checkpoint/observer): failover logs of 1..6 entries "
+             "(newest first, non-increasing starts, equal starts, oldest 0), checkpoint F at snapshot start/middle/end with a known or unknown "
+             "vbUUID, rollback point R in [0,F] dense around every entry start (+-1), R=0, R=F, finite/infinite end, collection filters, "
+             "post-rollback stream from the new branch: none / only <=F / exactly F / straddling F / only >F with system events and seqno-advanced "
+             "among them; second request answered success / error / ROLLBACK again. Oracle: exactly two DCP_STREAM_REQ, the 2nd with start=R, "
+             "vbuuid of the newest log entry with start<=R, snapshot [R,R], same end and filter; no event <=F shown, every document event >F "
+             "shown once in order, offsets carry failover[0] of the second response; failing 2nd request => OpenStream returns an error. "
+             "non-trivial = log >= 2 entries, R strictly inside an older branch, events on both sides of F",
+        assumptions=["simnode (memcached/DCP protocol as gocbcore v10.5.2 speaks it) is the trusted server model", "the server streams seqnos > R in increasing order inside announced snapshots"],
+        units=[rapid("TestC08_Rollback", 3000, 200000)],
+        min_share=dict(any={"r_in_older_branch": ["cases", 0.15], "event_exactly_F": ["cases", 0.05], "second_error": ["cases", 0.05]}),
+    ),
     "C09": dict(
         level="exploration",
         rule="exhaustive enumeration of (N,T), 1<=T<=N, every member inspected (quick: N in 1..256,512,1024; "
